@@ -38,8 +38,25 @@ def check(repo, reader):
     default = _n(f"self.objects[{tid}].default_row_height" if row else f"self.objects[{tid}].default_column_width")
     memo = _n(f"self.{sizes}[{tid}][{idx}]")
     memo_tab = _n(f"self.{sizes}[{tid}]")
-    paths = Summarizer().summarize(f)
-    probs = {"set": [], "get-memo": [], "lookup": [], "fields": []}
+    # the memo maps a table id to a dict of sizes: when every store into it (anywhere in the model) puts a dict there, an entry
+    # is never None and ``memo.get(t)`` / ``memo.get(t) is None`` read as ``memo[t]`` / ``t not in memo``
+    from . import funsum as _fs
+    never_none = True
+    for n_ in ast.walk(repo.tree("model.py")):
+        tg_ = n_.targets if isinstance(n_, ast.Assign) else ([n_.target] if isinstance(n_, (ast.AugAssign, ast.AnnAssign)) else [])
+        for t_ in tg_:
+            if isinstance(t_, ast.Subscript) and U(t_.value) == f"self.{sizes}" and not (isinstance(n_, ast.Assign) and (
+                    isinstance(n_.value, (ast.Dict, ast.DictComp)) or (isinstance(n_.value, ast.Call) and call_name(n_.value) in ("dict", "defaultdict")))):
+                never_none = False
+    saved_tables = set(_fs.TABLE_TEXTS)
+    if never_none:
+        _fs.TABLE_TEXTS.add(f"self.{sizes}")
+    try:
+        paths = Summarizer().summarize(f)
+    finally:
+        _fs.TABLE_TEXTS.clear()
+        _fs.TABLE_TEXTS.update(saved_tables)
+    probs = {"set": [], "get-memo": [], "lookup": [], "fields": [], "allowance": set()}
     n = 0
 
     def stores_ok(p, value_text, simp=lambda e: e):
@@ -77,6 +94,21 @@ def check(repo, reader):
                 n += 1
                 r = _Simp(Asg(sc, fx)).visit(copy.deepcopy(_strip(p.ret)))
                 rounds = [U(c.args[0]) for c in ast.walk(r) if isinstance(c, ast.Call) and call_name(c) == "round" and len(c.args) == 1]
+                # what the reported size adds on top of the rounded stored size (the border allowance)
+                core = r
+                while isinstance(core, ast.Call) and call_name(core) in ("floor", "int", "round", "ceil") and len(core.args) == 1 and not (
+                        call_name(core) == "round" and U(core.args[0]) in rounds and not isinstance(core.args[0], ast.BinOp)):
+                    core = core.args[0]
+                terms = []
+
+                def _flat(e):
+                    if isinstance(e, ast.BinOp) and isinstance(e.op, ast.Add):
+                        _flat(e.left)
+                        _flat(e.right)
+                    else:
+                        terms.append(e)
+                _flat(core)
+                probs["allowance"] |= {U(t)[:80] for t in terms if not (isinstance(t, ast.Call) and call_name(t) == "round") and not (isinstance(t, ast.Constant) and t.value in (0, 0.0))}
                 want = _n(f"{M}[{idx}].size") if (present and nonzero) else default
                 cat = "lookup" if (present and nonzero) else "fields"
                 where = (f"header with index {idx} present={present}, size non-zero={nonzero}" + (f", {fx}" if fx else ""))
@@ -94,7 +126,13 @@ def check(repo, reader):
         # the first test on the parameter decides (later ones may test a local that reuses its name)
         firstc = next(((t, o) for t, o in conds if none_test(t, val) is not None), None)
         given = firstc is not None and ((none_test(firstc[0], val) is True and firstc[1] is False) or (none_test(firstc[0], val) is False and firstc[1] is True))
-        store_at = next((i for i, st in enumerate(steps) if isinstance(st, ast.Assign) and len(st.targets) == 1 and U(st.targets[0]).replace(" ", "") == memo.replace(" ", "")), None)
+        def _canon_target(t_):
+            t2_ = copy.deepcopy(_strip(t_))
+            for x_ in ast.walk(t2_):
+                if hasattr(x_, "ctx"):
+                    x_.ctx = ast.Load()
+            return U(_fs._Canon().visit(t2_)).replace(" ", "")
+        store_at = next((i for i, st in enumerate(steps) if isinstance(st, ast.Assign) and len(st.targets) == 1 and _canon_target(st.targets[0]) == memo.replace(" ", "")), None)
         if given and store_at is not None:
             first = any(isinstance(st, ast.Expr) and isinstance(st.value, ast.Call) and U(st.value.func) == "self.extract_strokes" and [U(a) for a in st.value.args] == [tid]
                         for st in steps[:store_at])
